@@ -325,6 +325,137 @@ func contains(s, sub string) bool {
 }
 
 func init() {
+	// W2: Free / SendAndClose / Send blocked on the FULL connection write queue while the peer ends the same channel.
+	vexp.Register(&vexp.Scenario{
+		Name: "c06.W2.end-blocked-on-full-write-queue", Prop: "C06", MaxSteps: 200000,
+		Bounds: func(thorough bool) vexp.Bounds {
+			if thorough {
+				return vexp.Bounds{P: 2, F: 1, E: 0}
+			}
+			return vexp.Bounds{P: 1, F: 1, E: 0}
+		},
+		Configs: func(thorough bool) []map[string]int {
+			var out []map[string]int
+			for op := 0; op < 3; op++ {
+				for peer := 0; peer < 3; peer++ {
+					// fill=1995: the queued frame fills its 2048-byte block, so even the small close frame has to wait
+					// for queue space; fill=1200: the close frame still fits behind it
+					for _, fill := range []int{1995, 1200} {
+						out = append(out, map[string]int{"op": op, "peer": peer, "writeq": 64, "wbuf": 16, "rbuf": 16, "fill": fill})
+					}
+				}
+			}
+			return out
+		},
+		Doc: "real client and server connections; the server stops reading (socket buffer of 32 bytes), sibling channel B fills the 64-byte write queue with 2000-byte messages until its Send blocks; then the client calls Free / SendAndClose / Send on channel A, which blocks waiting for queue space; meanwhile the server side of A ends (handler returns OK / returns an error / panics) and its close frame arrives; then the server reads again: the blocked call returns without panic, the connection stays open, B's messages all arrive in order",
+		Body: func(x *vexp.Ctx) {
+			op, peer := x.P("op", 0), x.P("peer", 0)
+			release := false
+			var bGot []int
+			hDone := 0
+			handler := HandleFunc(func(ctx Context, ch Channel) status.Status {
+				defer func() { hDone++ }()
+				rctx := async.NoContext()
+				first, st := ch.Receive(rctx)
+				if !st.OK() {
+					return status.OK
+				}
+				if string(first) == "hold" {
+					vsched.Join("released", func() bool { return release })
+					switch peer {
+					case 0:
+						return status.OK
+					case 1:
+						return status.Errorf("handler failed")
+					default:
+						panic("handler boom")
+					}
+				}
+				for {
+					m, st := ch.Receive(rctx)
+					if !st.OK() {
+						return status.OK
+					}
+					bGot = append(bGot, len(m))
+				}
+			})
+			w := newWide(x, handler)
+			ctx := async.NoContext()
+			var problems []string
+			chA, st := w.cli.Channel(ctx)
+			if !st.OK() {
+				x.Fail("Channel fails on a healthy connection", "%v", st)
+				return
+			}
+			chB, st := w.cli.Channel(ctx)
+			if !st.OK() {
+				x.Fail("Channel fails on a healthy connection", "%v", st)
+				return
+			}
+			chA.Send(ctx, []byte("hold"))
+			chB.Send(ctx, []byte("b"))
+			vsched.WaitIdle("channels open")
+			w.b.StallAfterRead(0, nil)
+			w.a.SetWriteCapacity(32)
+			bDone, aDone := false, false
+			var bSt, aSt status.Status
+			vsched.GoNamed("client.B", func() {
+				for k := 0; k < 3; k++ {
+					if bSt = chB.Send(ctx, vPayload(0, 1, k, x.P("fill", 2000)+k)); !bSt.OK() {
+						break
+					}
+				}
+				bDone = true
+			})
+			vsched.WaitIdle("write queue full, B blocked")
+			vsched.GoNamed("client.A", func() {
+				defer func() {
+					if e := recover(); e != nil {
+						problems = append(problems, fmt.Sprintf("call on channel A panics: %v", e))
+					}
+					aDone = true
+				}()
+				switch op {
+				case 0:
+					chA.Free()
+				case 1:
+					aSt = chA.SendAndClose(ctx, []byte("bye"))
+					chA.Free()
+				default:
+					aSt = chA.Send(ctx, []byte("more"))
+					chA.Free()
+				}
+			})
+			vsched.WaitIdle("A blocked on the write queue")
+			blockedA := !aDone
+			release = true // the server side of A ends now: its close frame reaches the client
+			vsched.WaitIdle("peer ended A")
+			w.b.Unstall() // the server reads again: everything drains
+			vsched.Join("client calls returned", func() bool { return aDone && bDone })
+			vsched.WaitIdle("drained")
+			for _, p := range problems {
+				x.Fail("ending a channel panics: "+errSig(p), "%s", p)
+			}
+			if w.cli.closed.IsSet() || w.srv.closed.IsSet() {
+				x.Fail("connection closed by ending a channel", "cli closed=%v srv closed=%v", w.cli.closed.IsSet(), w.srv.closed.IsSet())
+			}
+			if !bSt.OK() {
+				x.Fail("sibling channel disturbed by ending another channel", "B's Send: %v", bSt)
+			}
+			if fmt.Sprint(bGot) != fmt.Sprint([]int{x.P("fill", 2000), x.P("fill", 2000) + 1, x.P("fill", 2000) + 2}) {
+				x.Fail("sibling channel disturbed by ending another channel", "B delivered %v, want sizes fill, fill+1, fill+2 (fill=%d)", bGot, x.P("fill", 2000))
+			}
+			for _, e := range w.log.Errors {
+				if contains(e, "panic") && !(peer == 2 && contains(e, "handler boom")) {
+					x.Fail("panic logged: "+errSig(e), "%s", e)
+				}
+			}
+			chB.Free()
+			x.Outcome = fmt.Sprintf("op=%d peer=%d A-was-blocked=%v aSt=%s", op, peer, blockedA, aSt.Code)
+			w.shutdown()
+		},
+	})
+
 	ways := []string{"client Free under incoming traffic", "client SendAndClose under incoming traffic", "handler returns while the client keeps sending", "handler returns an error while the client keeps sending", "handler panics while the client keeps sending"}
 	vexp.Register(&vexp.Scenario{
 		Name: "c06.W1.wide-end-vs-sibling", Prop: "C06", MaxSteps: 100000,
